@@ -2,6 +2,7 @@ package engines
 
 import (
 	"bytes"
+	sdkmath "cosmossdk.io/math"
 	"encoding/hex"
 	"encoding/json"
 	"fmt"
@@ -130,6 +131,14 @@ func TestEngineGenesis(t *testing.T) {
 			sig, _ := crypto.Sign(crypto.Keccak256([]byte(vauthtypes.MessageToSign)), key)
 			require.NoError(t, vk.SaveProofExternalOwnedAccount(ctx, vauthtypes.ProofExternalOwnedAccount{Account: c.wallets[3].GetCosmosAddress().String(),
 				Hash: "0x" + hex.EncodeToString(crypto.Keccak256([]byte(vauthtypes.MessageToSign))), Signature: "0x" + hex.EncodeToString(sig)}))
+		}
+		if r.Chance(1, 2) { // a fee market away from its defaults: fractional minimum gas price, base fee at or near its floor
+			fk := c.s.ChainApp.FeeMarketKeeper()
+			fp := fk.GetParams(ctx)
+			whole := int64(1_000_000_000 + r.Intn(1_000_000_000))
+			fp.MinGasPrice = sdkmath.LegacyNewDec(whole).Add(sdkmath.LegacyNewDecWithPrec(int64(r.Intn(100)), 2))
+			fp.BaseFee = sdkmath.NewInt(whole + int64([]int{0, 0, 1, 12345}[r.Intn(4)]))
+			require.NoError(t, fk.SetParams(ctx, fp))
 		}
 		c.setupDone()
 		for i := 0; i < r.Intn(3); i++ { // a few blocks: the base fee moves
